@@ -19,6 +19,7 @@ import (
 	"sort"
 	"strconv"
 	"strings"
+	"time"
 
 	"mvdan.cc/sh/v3/syntax"
 	"verifharness/hx"
@@ -372,6 +373,7 @@ func atTestCommand(f *syntax.File) bool {
 
 func searchCase(idStr, src string, keep bool, wantTree bool) obs {
 	o := obs{ID: idStr, Hex: hx.Hex(src)}
+	hs.SetCurrent("search " + o.Hex)
 	trees := map[syntax.LangVariant]*syntax.File{}
 	for _, l := range hs.Langs {
 		f, err, pan := parse(src, hs.Cfg{Lang: l, Keep: keep})
@@ -657,6 +659,11 @@ func isIdent(e ast.Expr, name string) bool {
 func main() {
 	o := hx.ParseArgs()
 	defer hx.Flush()
+	if o.Tier == "thorough" {
+		hs.Guard(40*time.Minute, 3<<30)
+	} else {
+		hs.Guard(8*time.Minute, 3<<30)
+	}
 	switch o.Mode {
 	case "search":
 		corpus := hs.Corpus(4000)
